@@ -36,6 +36,9 @@ def units(tier):
         us += func_units(f"{M}.{q}", tier)
     us += func_units(f"{M}._do_attributes", tier, only=lambda inst: inst["identity"].startswith("unknown"))
     us.append(ground_unit("C15.table_lemmas", table_lemmas))
+    from pyvc import clientrun
+    us.append(clientrun.unit("stub_serializes_to_same_frame", clientrun.lemma_parse_serialize))
+    us.append(clientrun.unit("crc_split", clientrun.lemma_crc_split))
     return us
 
 
